@@ -1,6 +1,6 @@
 SPECIFICATION Spec
 CONSTANTS
-  Program <- McTwoClose
+  Program <- McTimeoutBig
   ControlTakesLock = TRUE
   FlushAtomic = TRUE
   LatchChecked = TRUE
